@@ -128,20 +128,19 @@ def oracle_expm(case, R):
     # algorithms differ by factors of 300 either way on such inputs)
     try:
         kexp = float(la.expm_cond(A * h)) if n and np.any(A) else 1.0
-        kexp_aug = float(la.expm_cond(M)) if n else 1.0
     except Exception:
-        kexp = kexp_aug = 1.0
+        kexp = 1.0
     if not np.isfinite(kexp):
         kexp = 1.0
-    if not np.isfinite(kexp_aug):
-        kexp_aug = 1.0
     R.metric("kappa_exp/(1+||Ah||)", kexp / kappa)
     sE = max(np.abs(E).max(), 1.0)
     sI1 = max(np.abs(I1).max(), h)
     sI2 = max(np.abs(I2).max(), h * h / 2)
     tolE = max(C_TOL * util.EPS * max(kappa, kexp) * sE, 10 * err_s)
-    tolI1 = max(C_TOL * util.EPS * max(kappa, kexp_aug) * sI1, 10 * max(err_i1, err_s * h))
-    tolI2 = max(C_TOL * util.EPS * max(kappa, kexp_aug) * sI2, 10 * max(err_i2, err_i1 * h, err_s * h * h))
+    # (the integrals inherit the sensitivity of exp(At), 0 <= t <= h: kappa_exp of Ah itself; the condition
+    # number of the exponential of the augmented matrix would also count perturbations of its constant blocks)
+    tolI1 = max(C_TOL * util.EPS * max(kappa, kexp) * sI1, 10 * max(err_i1, err_s * h))
+    tolI2 = max(C_TOL * util.EPS * max(kappa, kexp) * sI2, 10 * max(err_i2, err_i1 * h, err_s * h * h))
     # F11 domain: I2 beyond Pade-9 comes from A^-1 formulas (or a raw power series when the
     # LU check fails); measured error grows like cond(A)^2*eps -> known finding for cond > 100
     illcond = singular or (sv.max() / sv.min() > 100.0)
@@ -413,7 +412,27 @@ def ss_cases(draw):
             "z": draw(st.lists(st.tuples(st.floats(-2, 2), st.floats(-2, 2)), min_size=1, max_size=4))}
 
 
+def enum_switch(shard, nshards, tier):
+    """every matrix class on both sides of the getEPQ1 / getEPQ2 switch (||Ah||_1 = 2.0978) and well above it,
+    order 0/1, B none / matrix / half: getEPQ must stay accurate where getEPQ1's I2 route is not (F11)"""
+    k = 0
+    for kind in ("dense", "upper", "jordan", "nilpotent_dense", "singular", "singular_upper", "mbk", "stiff", "skew"):
+        for norm in (2.0, 2.2, 5.0, 20.0, 100.0, 200.0, 250.0):
+            if kind in ("jordan", "nilpotent_dense") and norm > 20.0:
+                continue                    # (F40 land: strongly non-normal with a large norm)
+            for order in (0, 1):
+                for B in ("none", "matrix", "half"):
+                    for seed in ((11, 12, 13) if tier == "thorough" else (11,)):
+                        n = 4 if kind in ("mbk", "stiff") else 3
+                        case = {"kind": kind, "n": n, "seed": seed, "norm": norm, "h": 0.5, "order": order, "B": B,
+                                "ncolB": 2, "half_with_B": False}
+                        if k % nshards == shard:
+                            yield case
+                        k += 1
+
+
 PARTS = [
+    Part("switch_grid", oracle_expm, enum=enum_switch, quick=(8, None), thorough=(8, None), exhaustive=True),
     Part("expm", oracle_expm, strategy=expm_cases, quick=(16, 40), thorough=(16, 1500)),
     Part("ssmodel", oracle_ss, strategy=ss_cases, quick=(8, 60), thorough=(16, 1500)),
 ]
